@@ -454,14 +454,29 @@ func allPathsReturnNonNil(b *ssa.BasicBlock, seen map[*ssa.BasicBlock]bool) (boo
 	}
 	seen[b] = true
 	for _, in := range b.Instrs {
+		if call, ok := in.(*ssa.Call); ok && calleeOf(call.Common()) == "os.Exit" {
+			if code, isConst := constInt(call.Common().Args[0]); isConst && code != 0 {
+				return true, ""
+			}
+		}
 		if r, ok := in.(*ssa.Return); ok {
 			res := r.Results
+			// closures (range-over-func bodies, callbacks) hand the error to the enclosing function through a captured variable
+			if len(res) == 0 || !isErrorType(res[len(res)-1].Type()) {
+				for _, in2 := range b.Instrs {
+					if s, ok := in2.(*ssa.Store); ok && isErrorType(s.Val.Type()) && !isNilConst(s.Val) {
+						if al := allocOf(s.Addr); al != nil && al.Parent() != b.Parent() {
+							return true, ""
+						}
+					}
+				}
+			}
 			if len(res) == 0 {
 				return false, "error path returns nothing"
 			}
 			last := res[len(res)-1]
 			if !isErrorType(last.Type()) {
-				return false, "error path return has no error result"
+				return false, fmt.Sprintf("error path in block %d returns without an error value", b.Index)
 			}
 			if isNilConst(last) {
 				return false, fmt.Sprintf("error path returns nil error in block %d", b.Index)
@@ -597,6 +612,21 @@ func returnsNilError(r *ssa.Return) bool {
 				}
 			}
 			if lastStore == nil {
+				// range-over-func exit: the value was stored by the yield closure before it asked for the return
+				if strings.HasPrefix(r.Block().Comment, "rangefunc.resume") {
+					all, n := true, 0
+					for _, st := range storesTo(al) {
+						if st.Parent() != r.Parent() {
+							n++
+							if isNilConst(st.Val) {
+								all = false
+							}
+						}
+					}
+					if n > 0 && all {
+						return false
+					}
+				}
 				return true // unknown: be conservative
 			}
 			return isNilConst(lastStore.Val)
